@@ -12,7 +12,7 @@ Inductive case :=
 
 Definition check (k : case) : bool :=
   match k with
-  | SnapC c => check_proj proj_edges eq_edges c
+  | SnapC c => check_proj proj_nesting eq_nesting c
   | KmpCase r obs =>
       match kmpDeduplicate r, obs with
       | Ok r', KOk o => ring_eqb r' o
